@@ -151,7 +151,7 @@ def evaluate(ctx, cs, label):
         if o["noloops"] != ["1"]:
             res.hist["malformed/self-loop"] = res.hist.get("malformed/self-loop", 0) + 1
             continue
-        lat = Lattice(pos.copy(), edges.copy(), crossing.copy())
+        lat = Lattice(*layout_variant(pos, edges, crossing)[:3])
         pairs = [tuple(sorted(map(int, e))) for e in edges]
         multi = len(set(pairs)) < len(pairs)
         ex["multigraph_lattices"] += int(multi)
